@@ -49,16 +49,16 @@ def run(ctx):
     ctx.preload(cfgs)
     for cfg in cfgs:
         fs = ctx.facts(cfg)
-        census(ctx, cfg, fs)
-        str_index(ctx, cfg, fs)
-        str_cut(ctx, cfg, fs)
-        nonempty(ctx, cfg, fs)
-        dead_arm(ctx, cfg, fs)
-        invariant(ctx, cfg, fs)
-        loops(ctx, cfg, fs)
-        recursion(ctx, cfg, fs)
-        group_flag(ctx, cfg, fs)
-        purity(ctx, cfg, fs)
+        ctx.guard(census, ctx, cfg, fs)
+        ctx.guard(str_index, ctx, cfg, fs)
+        ctx.guard(str_cut, ctx, cfg, fs)
+        ctx.guard(nonempty, ctx, cfg, fs)
+        ctx.guard(dead_arm, ctx, cfg, fs)
+        ctx.guard(invariant, ctx, cfg, fs)
+        ctx.guard(loops, ctx, cfg, fs)
+        ctx.guard(recursion, ctx, cfg, fs)
+        ctx.guard(group_flag, ctx, cfg, fs)
+        ctx.guard(purity, ctx, cfg, fs)
 
 # Sites are budgeted per CLASS, not per spelling: `&s[..i]` and `s.split_at(i)`, `v[i]` through the Index trait and a
 # bounds-checked array access, `.unwrap()` and `match .. None => unreachable!()` are the same obligation.
